@@ -96,6 +96,7 @@ fn catchup_dbs() -> Option<&'static std::sync::Arc<nundb::bo::Databases>> {
         std::mem::forget(rr);
         std::mem::forget(sr);
         let dbs = std::sync::Arc::new(nundb::bo::Databases::new("admin".into(), "pwd".into(), "127.0.0.1:1".into(), "127.0.0.1:1".into(), rs, ss, std::collections::HashMap::new(), 1, true));
+        dbs.node_state.store(nundb::bo::ClusterRole::Primary as usize, std::sync::atomic::Ordering::SeqCst);
         let mut adm = crate::common::session::Session::new();
         adm.call(&dbs, "auth admin pwd");
         adm.call(&dbs, "create-db d1 tok1");
@@ -507,8 +508,8 @@ pub fn run(tier: &str) -> i32 {
     ];
     ev.write();
     let code = v.finish(tier);
-    if code == 0 && (queries < 5000 || shapes.len() < 100 || v.inconclusive_count() > 0) {
-        println!("INCONCLUSIVE property=C12 reason=coverage floor not met or a child died ({} queries, {} shapes)", queries, shapes.len());
+    if code == 0 && (queries < 5000 || catch_up_queries < 2000 || shapes.len() < 100 || v.inconclusive_count() > 0) {
+        println!("INCONCLUSIVE property=C12 reason=coverage floor not met or a child died ({} queries, {} catch-up command lists, {} shapes)", queries, catch_up_queries, shapes.len());
         return 2;
     }
     println!("C12 {}: {} logs, {} queries, {} shapes, up to {} files, {} pruning checks, {} violations", tier, logs, queries, shapes.len(), max_files, prune, v.violation_count());
